@@ -719,7 +719,7 @@ def sanitize(w):
 
 
 def my_worlds(chk, drv, n_worlds):
-    G = gen.Gen(chk.rng, unions=True, nt=True, enum_lits=True)
+    G = gen.Gen(chk.rng, unions=True, nt=True, enum_lits=True, class_features=True, validators=False)
     made = attempts = 0
     while made < n_worlds and attempts < n_worlds * 3:
         attempts += 1
